@@ -16,7 +16,7 @@ Ev == TLog[l]
 
 Apply(e) ==
   CASE e.op = "set"        -> Set(refs, logs, e.n, e.v)
-    [] e.op = "setlog"     -> SetWithLog(refs, logs, e.n, e.v, 0)
+    [] e.op = "setlog"     -> SetWithLog(refs, logs, e.n, e.v, MetaOf(e.v))
     [] e.op = "del"        -> Delete(refs, logs, e.n)
     [] e.op = "get"        -> Get(refs, logs, e.n)
     [] e.op = "log"        -> LogRead(refs, logs, e.n)
@@ -27,7 +27,9 @@ Apply(e) ==
     [] e.op = "listremote" -> ListRemote(refs, logs, e.n)
     [] e.op = "renremote"  -> RenameAllRemote(refs, logs, e.n, e.m)
 
-OldNew(s) == [i \in 1..Len(s) |-> <<s[i][1], s[i][2]>>]
+\* the whole entry is compared: old value, new value and the kind of entry (MetaOf; the harness reads
+\* author, action, message and transaction id back: an entry that lost one of them is kind 9)
+OldNew(s) == s
 
 RetMatches(e, ret) ==
   /\ "free" \notin DOMAIN ret => ret.ok = e.ok
